@@ -48,6 +48,28 @@ class Observation:
         self.unread = 0
         self.spin = False
 
+    def reparse(self, methods):
+        """parse the wire again knowing the request methods (a refused HEAD request has no application call to tell)"""
+        ms = [m if isinstance(m, (bytes, type(None))) else s2b(m) for m in methods]
+        self.responses, self.parsed_upto, self.problem = RESP.parse_responses(self.wire, ms + [None] * 4, eof=self.closed)
+        return self
+
+    def reparse_tolerant(self, methods):
+        """like reparse, but an error response may carry a body even when the reference knows the request was HEAD
+        (the server refuses some messages before it has learnt the method): try again treating one request as non-HEAD"""
+        methods = list(methods)
+        self.reparse(methods)
+        if not self.problem:
+            return self
+        for k in range(len(methods)):
+            if methods[k] in (b"HEAD", "HEAD"):
+                alt = list(methods)
+                alt[k] = None
+                self.reparse(alt)
+                if not self.problem and self.responses and not any(r.get(b"x-call") for r in self.responses[-1:]):
+                    return self
+        return self.reparse(methods)
+
     def summary(self):
         """application-visible outcome, comparable across segmentations"""
         return {
